@@ -833,14 +833,46 @@ def reply_body(result_toks, attr_atoks):
              E("env:Body", [], E("ns:fResponse", [], E("ns:result", [], result_toks))))
 
 
+def declared_names(subset):
+    """(internal, external) general entity names a reference in the body would find
+    (first declaration wins; declarations after a parameter-entity reference may be skipped)."""
+    internal, external, seen = [], [], set()
+    for d in subset:
+        if d[0] == "pr":
+            break
+        if d[0] in ("gi", "ge", "gn") and d[1] not in seen:
+            seen.add(d[1])
+            if d[0] == "gi" and all(t[0] == "t" for t in d[2]):
+                internal.append(d[1])
+            elif d[0] == "ge":
+                external.append(d[1])
+    return internal, external
+
+
 def g_payload(rng, strong=False):
-    """A DTD + reference material to embed in a structured document."""
+    """A DTD + reference material to embed in a structured document; most of the
+    time the result is well-formed, so that the surrounding WSDL / reply is processed."""
     subset = g_decls(rng, depth=1)
     if strong or rng.random() < 0.6:
         subset.insert(rng.randrange(0, len(subset) + 1), ("ge", rng.choice(ENT), rng.choice(SLOT_IDS)))
     ext = rng.choice(SLOT_IDS) if rng.random() < 0.3 else None
-    text = g_content(rng, ENT, 0, 0.6)
-    attr = g_atoks(rng, ENT, 0.25) if rng.random() < 0.5 else [("t", g_word(rng, 1, 3))]
+    if rng.random() < 0.12:
+        text = g_content(rng, ENT, 0, 0.6)
+        attr = g_atoks(rng, ENT, 0.25)
+        return subset, ext, text, attr
+    internal, external = declared_names(subset)
+    text = []
+    for _ in range(rng.randrange(1, 5)):
+        r = rng.random()
+        if r < 0.45 and (internal or external):
+            text.append(("r", rng.choice(internal + external + external)))
+        elif r < 0.55:
+            text.append(("r", rng.choice(list(PREDEF))))
+        else:
+            text.append(("t", g_word(rng, 1, 4)))
+    attr = [("t", g_word(rng, 1, 3))]
+    if internal and rng.random() < 0.6:
+        attr.append(("r", rng.choice(internal)))
     return subset, ext, text, attr
 
 
@@ -1183,6 +1215,8 @@ def run(ck):
         "non-UTF-8 encodings are outside the model's document language",
     ]
     proof_ok = ck.prove(THEOREMS)
+    import logging
+    logging.getLogger("suds").addHandler(logging.NullHandler())   # suds logs unknown reply elements as errors
 
     WORLD = World()
     WORLD.start()
@@ -1293,6 +1327,8 @@ def _run(ck, suds, proof_ok):
         if bad:
             load_requests_bad.append((bad, docs[root_url][1]))
         ck.count("client-load-" + ("ok" if err is None else "raised"))
+        if os.environ.get("C20_DEBUG") and err is not None:
+            sys.stderr.write("client-load raised: %s\n" % err[:200])
 
     ck.extra["transport_requests_outside_named_documents"] = len(load_requests_bad)
 
